@@ -344,52 +344,47 @@ impl GraphModel {
     // part of the property: exact names first, then prefixes in order)
 
     fn block_text(&self, owner: &str, depth: usize, comp_depth: usize) -> Result<String, String> {
-        // lineage of `b` from owner's perspective: owner's definition, then ancestors while the
-        // previous level calls super()
+        // lineage of `b` from owner's perspective: owner's definition, then one ancestor further
+        // for every super() call (every skeleton template defines `b`)
         let mut chain: Vec<String> = vec![owner.to_string()];
         chain.extend(self.ancestors(owner));
-        let mut levels: Vec<&String> = Vec::new();
-        for t in &chain {
-            levels.push(t);
-            if !self.nodes[t].super_call {
-                break;
+        self.level_text(&chain, 0, depth, comp_depth)
+    }
+
+    /// Text of the definition at `chain[idx]`, in the engine's evaluation order: block-placed
+    /// includes, the component call, then super().
+    fn level_text(&self, chain: &[String], idx: usize, depth: usize, comp_depth: usize) -> Result<String, String> {
+        if depth > 300 {
+            return Err("unbounded".to_string());
+        }
+        let t = &chain[idx];
+        let node = &self.nodes[t];
+        let mut out = format!("[{}.b", t);
+        for (target, p) in &node.incs {
+            if *p == Place::Block {
+                out.push_str(&self.include_text(target, depth + 1, comp_depth)?);
             }
         }
-        // innermost (last level) first, wrapped outwards
-        let mut inner: Option<String> = None;
-        let last_has_super = self.nodes[*levels.last().unwrap()].super_call;
-        if last_has_super {
-            // the topmost definition calls super() with nothing above it
-            return Err("Tried to use super() in the top level block".to_string());
-        }
-        for t in levels.iter().rev() {
-            let node = &self.nodes[*t];
-            let mut out = format!("[{}.b", t);
+        if node.incs.iter().any(|(_, p)| *p == Place::Component) {
+            if comp_depth + 1 > 20 {
+                return Err("Maximum render recursion depth for components exceeded.".to_string());
+            }
+            out.push_str(&format!("({}", comp_name(t)));
             for (target, p) in &node.incs {
-                if *p == Place::Block {
-                    out.push_str(&self.include_text(target, depth + 1, comp_depth)?);
+                if *p == Place::Component {
+                    out.push_str(&self.include_text(target, depth + 1, comp_depth + 1)?);
                 }
             }
-            if node.incs.iter().any(|(_, p)| *p == Place::Component) {
-                if comp_depth + 1 > 20 {
-                    return Err("Maximum render recursion depth for components exceeded.".to_string());
-                }
-                let k = comp_name(t);
-                out.push_str(&format!("({}", k));
-                for (target, p) in &node.incs {
-                    if *p == Place::Component {
-                        out.push_str(&self.include_text(target, depth + 1, comp_depth + 1)?);
-                    }
-                }
-                out.push(')');
-            }
-            if node.super_call {
-                out.push_str(inner.as_deref().unwrap_or(""));
-            }
-            out.push(']');
-            inner = Some(out);
+            out.push(')');
         }
-        Ok(inner.unwrap_or_default())
+        if node.super_call {
+            if idx + 1 >= chain.len() {
+                return Err("Tried to use super() in the top level block".to_string());
+            }
+            out.push_str(&self.level_text(chain, idx + 1, depth + 1, comp_depth)?);
+        }
+        out.push(']');
+        Ok(out)
     }
 
     fn include_text(&self, target: &str, depth: usize, comp_depth: usize) -> Result<String, String> {
@@ -562,7 +557,14 @@ pub fn check_outputs(model: &Model, t: &tera::Tera, i: usize, stats: &mut Stats,
                     ));
                 }
             }
-            (Err(_), Err(_)) => {}
+            (Err(why), Err(e)) => {
+                // same class of failure, not just "some error"
+                let m = format!("{}", e);
+                let class_ok = if why.contains("super()") { m.contains("super()") } else if why.contains("Maximum render recursion") { m.contains("Maximum render recursion") } else { true };
+                if !class_ok {
+                    out.violations.push(Violation::new("C11", "render-fails-differently-from-graph-model", format!("after op {}: render({}) = Err({}), model: {}", i, name, crate::engine::trunc(&m), why)));
+                }
+            }
             (Ok(w), Err(e)) => out.violations.push(Violation::new("C11", "render-fails-where-graph-model-renders", format!("after op {}: render({}) = Err({}), model = {:?}", i, name, crate::engine::trunc(&format!("{}", e)), crate::engine::trunc(w)))),
             (Err(why), Ok(g2)) => out.violations.push(Violation::new("C11", "render-succeeds-where-graph-model-fails", format!("after op {}: render({}) = {:?}; model: {}", i, name, crate::engine::trunc(g2), why))),
         }
@@ -661,6 +663,14 @@ pub fn generate(seed: u64, tier: &str, property: &str) -> RegScenario {
                     }
                 }
             }
+        }
+    }
+
+    // `super()` with nothing above is a render-time error: keep it rare, or a deep chain hardly
+    // ever renders to text (it masked seeded change C11f)
+    for sp in specs.iter_mut() {
+        if sp.extends.is_none() && sp.super_call && !rng.chance(1, 12) {
+            sp.super_call = false;
         }
     }
 
